@@ -1,25 +1,54 @@
 #!/bin/bash
 # check_refactors.sh [name...] : every stored behaviour-preserving refactoring must leave every check
-# silent.  Each patch is applied to a scratch copy of /repo (outside /repo and /verif, removed
-# afterwards); 4 copies are analysed in parallel.
+# silent.  A refactoring is an edit of one particular tree: it is applied to a scratch copy of the
+# commit of /repo recorded as "base_commit" in its meta.json (tools/find_refactor_base.sh; the newest
+# commit on which the patch applies - HEAD for most), and what the checks report on the refactored
+# tree is compared with what they report on that base tree: a report that the refactoring ADDS is a
+# false alarm ("FIRED"); reports that the base tree has anyway (defects repaired by later commits),
+# also under another key of the same rule, are not the refactoring's.  Scratch copies live outside /repo and /verif and are removed; 4 trees
+# are analysed in parallel; the reports of each base commit are computed once.
 set -u
 NAMES=${@:-$(ls /verif/refactors)}
 SCR=$(mktemp -d /tmp/refchk.XXXXXX)
-one() {
-  NAME=$1; SCR=$2
-  D=$SCR/$NAME
-  mkdir -p $D/repo $D/verif
-  rsync -a --exclude .git /repo/ $D/repo/
-  cp /verif/known_findings.json $D/verif/
-  if ! (cd $D/repo && patch -p1 -s --no-backup-if-mismatch < /verif/refactors/$NAME/patch.diff >/dev/null 2>&1); then echo "$NAME: patch does not apply"; rm -rf $D; return; fi
-  OUT=""
+reports() { # <tree> <verifdir> -> sorted list of "rule:key" reported as violation / undecided
   for P in $(/verif/bin/mrocheck -list); do
-    O=$(GOMAXPROCS=4 /verif/bin/mrocheck -repo $D/repo -verif $D/verif -property $P 2>&1 | grep -v '^WARNING' | grep '^VIOLATION\|^UNDECIDED' | grep -v '^VIOLATION property' | cut -c1-200)
-    [ -n "$O" ] && OUT="$OUT\n  [$P] $O"
-  done
-  rm -rf $D
-  if [ -z "$OUT" ]; then echo "$NAME: silent"; else echo -e "$NAME: FIRED$OUT"; fi
+    GOMAXPROCS=4 /verif/bin/mrocheck -repo $1 -verif $2 -property $P 2>&1 | grep '^VIOLATION\|^UNDECIDED' | grep -v '^VIOLATION property' | sed -E 's/ at [^ ]+:[0-9]+: .*$//; s/ at -: .*$//' | sed "s/^/[$P] /"
+  done | sort -u
 }
-export -f one
-printf '%s\n' $NAMES | xargs -P 4 -I{} bash -c "one {} $SCR"
+base_reports() { # <commit>
+  C=$1; F=$SCR/base_$C.txt
+  (
+    flock 9
+    if [ ! -f $F ]; then
+      mkdir -p $SCR/base_$C/repo $SCR/base_$C/verif
+      git -C /repo archive $C | tar -x -C $SCR/base_$C/repo
+      cp /verif/known_findings.json $SCR/base_$C/verif/
+      reports $SCR/base_$C/repo $SCR/base_$C/verif > $F.tmp; mv $F.tmp $F
+    fi
+  ) 9> $SCR/lock_$C
+}
+one() {
+  NAME=$1
+  D=$SCR/$NAME
+  C=$(python3 -c "import json;print(json.load(open('/verif/refactors/$NAME/meta.json')).get('base_commit',''))" 2>/dev/null)
+  [ -z "$C" ] && C=$(git -C /repo rev-parse --short HEAD)
+  base_reports $C
+  mkdir -p $D/repo $D/verif
+  git -C /repo archive $C | tar -x -C $D/repo
+  cp /verif/known_findings.json $D/verif/
+  if ! (cd $D/repo && patch -p1 -s --no-backup-if-mismatch < /verif/refactors/$NAME/patch.diff >/dev/null 2>&1); then echo "$NAME: patch does not apply to its base $C"; rm -rf $D; return; fi
+  reports $D/repo $D/verif > $D/out.txt
+  # a report is the refactoring's if its obligation is not reported on the base tree and - for base
+  # trees that still contain a defect repaired later - the base does not report the same RULE for
+  # the same property either (the refactoring may move that defect into a helper: another key)
+  NEW=$(comm -13 $SCR/base_$C.txt $D/out.txt | while IFS= read -r line; do
+      pr=$(echo "$line" | awk '{print $1}'); rule=$(echo "$line" | awk '{print $3}' | cut -d: -f1)
+      if ! awk -v p="$pr" -v r="$rule" '$1==p { split($3,a,":"); if (a[1]==r) f=1 } END { exit !f }' $SCR/base_$C.txt; then echo "$line"; fi
+    done)
+  rm -rf $D
+  if [ -z "$NEW" ]; then echo "$NAME: silent (base $C)"; else echo "$NAME: FIRED (base $C)"; echo "$NEW" | cut -c1-220 | sed 's/^/  /'; fi
+}
+export -f one reports base_reports
+export SCR
+printf '%s\n' $NAMES | xargs -P 4 -I{} bash -c "one {}"
 rm -rf $SCR
